@@ -2,7 +2,7 @@
 //! C14 (unique columns), C15(b) (ambiguous names).
 use crate::common::*;
 use crate::refm::ref_member;
-use crate::sqlgen::{queries, GenQuery, Order};
+use crate::sqlgen::{queries, queries_plus, GenQuery, Order};
 use crate::sqlite::{same_multiset, same_sequence, Cell, Engine, Table};
 use crate::world::{show_db, Db, World};
 use qrlew::builder::With;
@@ -16,6 +16,8 @@ use std::sync::Arc;
 
 #[derive(Clone)]
 pub struct CompiledOk {
+    /// structural features of the relation (see features.rs)
+    pub features: Vec<String>,
     pub relation: Arc<Relation>,
     pub rendered: String,
     pub fields: Vec<(String, DataType, Option<Constraint>)>,
@@ -36,7 +38,7 @@ pub fn compile(sql: &str, relations: &Hierarchy<Arc<Relation>>) -> Outcome {
         let rendered = ast::Query::from(&relation).to_string();
         let fields = relation.schema().iter().map(|f| (f.name().to_string(), f.data_type(), f.constraint())).collect();
         let size = relation.size().iter().cloned().collect();
-        Ok(CompiledOk { relation: Arc::new(relation), rendered, fields, size })
+        Ok(CompiledOk { features: crate::features::features(&relation), relation: Arc::new(relation), rendered, fields, size })
     });
     match r {
         Ok(Ok(c)) => Outcome::Ok(c),
@@ -82,8 +84,21 @@ fn defined_names(sql: &str) -> Vec<Option<String>> {
     of_body(&q.body)
 }
 
+/// the outermost select list contains `*` or `t.*` (decided on the parsed text, not on the characters:
+/// `price * 2` is not a wildcard)
 fn has_wildcard(sql: &str) -> bool {
-    sql.contains('*') && !sql.contains("count(*)") || sql.contains("SELECT *")
+    fn of_body(b: &ast::SetExpr) -> bool {
+        match b {
+            ast::SetExpr::Select(s) => s.projection.iter().any(|it| matches!(it, ast::SelectItem::Wildcard(_) | ast::SelectItem::QualifiedWildcard(_, _))),
+            ast::SetExpr::SetOperation { left, .. } => of_body(left),
+            ast::SetExpr::Query(q) => of_body(&q.body),
+            _ => false,
+        }
+    }
+    match parse(sql) {
+        Ok(q) => of_body(&q.body),
+        Err(_) => sql.contains("SELECT *"),
+    }
 }
 
 /// SELECT * over a USING / NATURAL join: the standard (and PostgreSQL, which qrlew follows) puts the
@@ -91,7 +106,7 @@ fn has_wildcard(sql: &str) -> bool {
 /// the index of the SQLite column of the same name (identity when not applicable).
 fn star_using_permutation(gq: &GenQuery, sqlite_cols: &[String], declared: &[String]) -> Vec<usize> {
     let ident: Vec<usize> = (0..declared.len()).collect();
-    if !(has_wildcard(&gq.sql) && (gq.tags.contains(&"using") || gq.tags.contains(&"natural"))) || sqlite_cols.len() != declared.len() {
+    if !((gq.tags.contains(&"using") || gq.tags.contains(&"natural")) && has_wildcard(&gq.sql)) || sqlite_cols.len() != declared.len() {
         return ident;
     }
     let perm: Option<Vec<usize>> = declared.iter().map(|n| sqlite_cols.iter().position(|m| m == n)).collect();
@@ -122,6 +137,7 @@ struct Prepared {
     outcome: Outcome,
     names: Vec<Option<String>>,
     unlimited: Option<String>,
+    star: bool,
 }
 
 /// groups of queries by the set of tables they read
@@ -202,50 +218,89 @@ pub fn run_sql_check(ctx: &Ctx, which: Which) -> Report {
     }
     let world = World::standard();
     let relations = world.relations();
-    let gqs = queries(ctx.tier);
+    let gqs = queries_plus(ctx.tier);
     let n_queries = gqs.len();
     let mut head = Report::new(level);
-    let mut prepared = vec![];
-    for gq in gqs {
-        if !ctx.wants(&gq.sql) {
-            continue;
+    // compile every query once, on 16 fresh threads (contiguous slices, results kept in enumeration order)
+    let gqs: Vec<GenQuery> = gqs.into_iter().filter(|gq| ctx.wants(&gq.sql)).collect();
+    let nthreads = 16usize;
+    let slice = (gqs.len() + nthreads - 1) / nthreads.max(1);
+    let mut prepared: Vec<Prepared> = vec![];
+    std::thread::scope(|sc| {
+        let handles: Vec<_> = gqs
+            .chunks(slice.max(1))
+            .map(|part| {
+                let relations = &relations;
+                std::thread::Builder::new()
+                    .stack_size(64 << 20)
+                    .spawn_scoped(sc, move || {
+                        part.iter()
+                            .map(|gq| {
+                                let outcome = compile(&gq.sql, relations);
+                                let names = defined_names(&gq.sql);
+                                let unlimited = if gq.limit { strip_limit(&gq.sql) } else { None };
+                                let star = has_wildcard(&gq.sql);
+                                Prepared { gq: gq.clone(), outcome, names, unlimited, star }
+                            })
+                            .collect::<Vec<_>>()
+                    })
+                    .expect("spawn")
+            })
+            .collect();
+        for h in handles {
+            prepared.extend(h.join().expect("compile thread"));
         }
-        let outcome = compile(&gq.sql, &relations);
-        match &outcome {
+    });
+    for p in &prepared {
+        match &p.outcome {
             Outcome::Ok(_) => head.add_count("queries_compiled", 1),
             Outcome::Err(e) => {
                 head.add_count("queries_rejected_with_error", 1);
-                head.reach("rejected_examples", &format!("{} :: {}", gq.sql, e.chars().take(80).collect::<String>()));
+                head.reach("rejected_examples", &format!("{} :: {}", p.gq.sql, e.chars().take(80).collect::<String>()));
             }
-            Outcome::Panic(p) => {
+            Outcome::Panic(pn) => {
                 head.add_count("queries_rejected_by_panic(left to C18)", 1);
-                head.reach("panic_sites", &p.site());
+                head.reach("panic_sites", &pn.site());
             }
         }
-        let names = defined_names(&gq.sql);
-        let unlimited = if gq.limit { strip_limit(&gq.sql) } else { None };
-        prepared.push(Prepared { gq, outcome, names, unlimited });
     }
     head.set("queries_total", n_queries as u64);
     let groups = group_by_tables(prepared);
     let tier = ctx.tier;
+    let known = crate::features::open_known(&ctx.id);
     for (tables, qs) in groups {
         let n = total_rows(tier, tables.len());
         let dbs = world.databases(&tables, n);
         head.reach("databases_per_table_set", &format!("{}:{}", tables.join("+"), dbs.len()));
-        let chunk = (dbs.len() / 64).max(1);
+        let chunk = ((dbs.len() + 15) / 16).max(1); // one engine (and one set of prepared statements) per worker
         let chunks: Vec<Vec<Db>> = dbs.chunks(chunk).map(|c| c.to_vec()).collect();
         let world = &world;
         let qs = &qs;
         let relations = &relations;
+        let known = &known;
         let part = par_reports(chunks, level, move |dbs, r| {
             let e = new_engine(world);
             // relations compiled with exact table sizes, per size vector (C07 only)
             let mut exact_cache: BTreeMap<(usize, Vec<usize>), Outcome> = BTreeMap::new();
-            for db in dbs {
-                fill(&e, world, &db);
-                r.add_count("databases", 1);
-                for (qi, p) in qs.iter().enumerate() {
+            // queries are processed in blocks whose prepared statements fit in the statement cache
+            // (original + rendered text per query); every block sees every database of the chunk
+            let block = 3000usize;
+            let nblocks = (qs.len() + block - 1) / block;
+            for bi in 0..nblocks {
+            let (lo, hi) = (bi * block, ((bi + 1) * block).min(qs.len()));
+            for db in dbs.iter() {
+                let db_rows: usize = db.values().map(|rows| rows.len()).sum();
+                if !qs[lo..hi].iter().any(|p| db_rows <= p.gq.max_total_rows) {
+                    continue;
+                }
+                fill(&e, world, db);
+                if bi == 0 {
+                    r.add_count("databases", 1);
+                }
+                for (qi, p) in qs.iter().enumerate().skip(lo).take(hi - lo) {
+                    if db_rows > p.gq.max_total_rows {
+                        continue;
+                    }
                     let c = match &p.outcome {
                         Outcome::Ok(c) => c,
                         _ => continue,
@@ -263,20 +318,25 @@ pub fn run_sql_check(ctx: &Ctx, which: Which) -> Report {
                     }
                     match which {
                         Which::C07 => {
-                            check_c07(&p.gq, c, &orig, &db, "interval-size", r);
-                            // the same with tables declared at exactly the instance's sizes
-                            let sizes: Vec<usize> = world.tables.iter().map(|t| db.get(t.name).map_or(0, |x| x.len())).collect();
+                            check_c07(&p.gq, c, &orig, db, "interval-size", known, r);
+                            // the same with tables declared at exactly the instance's sizes (quick: for the
+                            // hand-written list and the depth-1 terms only)
+                            if tier == Tier::Quick && !p.gq.subqueries.is_empty() {
+                                continue;
+                            }
+                            let sizes: Vec<usize> = world.tables.iter().map(|t| db.get(t.name).map_or(0, |x| x.len())).collect::<Vec<usize>>();
                             let key = (qi, sizes);
-                            let oc = exact_cache.entry(key).or_insert_with(|| compile(&p.gq.sql, &world.relations_exact(&db)));
+                            let oc = exact_cache.entry(key).or_insert_with(|| compile(&p.gq.sql, &world.relations_exact(db)));
                             if let Outcome::Ok(c2) = oc {
                                 let c2 = c2.clone();
-                                check_c07(&p.gq, &c2, &orig, &db, "exact-size", r);
+                                check_c07(&p.gq, &c2, &orig, db, "exact-size", known, r);
                             }
                         }
-                        Which::C08 => check_c08(p, c, &orig, &e, &db, r),
-                        Which::C14 => check_c14(&p.gq, c, &orig, &db, r),
+                        Which::C08 => check_c08(p, c, &orig, &e, db, r),
+                        Which::C14 => check_c14(&p.gq, c, &orig, db, r),
                     }
                 }
+            }
             }
             let _ = relations;
         });
@@ -300,14 +360,14 @@ pub fn run_sql_check(ctx: &Ctx, which: Which) -> Report {
 
 // ---------------------------------------------------------------------------------------
 
-fn check_c07(gq: &GenQuery, c: &CompiledOk, orig: &Table, db: &Db, mode: &str, r: &mut Report) {
+fn check_c07(gq: &GenQuery, c: &CompiledOk, orig: &Table, db: &Db, mode: &str, known: &std::collections::BTreeSet<String>, r: &mut Report) {
     let n = orig.rows.len() as i64;
     if !c.size.iter().any(|[a, b]| *a <= n && n <= *b) {
         let kind = if c.size.iter().all(|[_, b]| n > *b) { "above-max" } else { "below-min" };
         r.violation(
-            format!("size {kind} node={} :: {}", root_kind(&c.relation), gq.sql),
+            crate::features::resolve(&format!("size {kind} node={}", root_kind(&c.relation)), &gq.sql, &c.features, known),
             &gq.sql,
-            json!({"query": gq.sql, "declared_size": format!("{:?}", c.size), "rows": n, "database": show_db(db), "table_sizes_declared": mode}),
+            json!({"query": gq.sql, "declared_size": format!("{:?}", c.size), "rows": n, "database": show_db(db), "table_sizes_declared": mode, "features": c.features}),
         );
     }
     if orig.cols.len() != c.fields.len() {
@@ -327,9 +387,9 @@ fn check_c07(gq: &GenQuery, c: &CompiledOk, orig: &Table, db: &Db, mode: &str, r
             if !ref_member(t, &v) {
                 let what = if *cell == Cell::Null { "null-in-non-optional" } else { "value-outside-type" };
                 r.violation(
-                    format!("type {what} type={} :: {}", crate::c06::kind_of(t), gq.sql),
+                    crate::features::resolve(&format!("type {what} type={}", crate::c06::kind_of(t)), &gq.sql, &c.features, known),
                     &gq.sql,
-                    json!({"query": gq.sql, "column": name, "declared_type": t.to_string(), "value": cell.show(), "row": row.iter().map(|c| c.show()).collect::<Vec<_>>(), "database": show_db(db), "table_sizes_declared": mode}),
+                    json!({"query": gq.sql, "column": name, "declared_type": t.to_string(), "value": cell.show(), "row": row.iter().map(|c| c.show()).collect::<Vec<_>>(), "database": show_db(db), "table_sizes_declared": mode, "features": c.features}),
                 );
                 return;
             }
@@ -364,7 +424,7 @@ fn check_c08(p: &Prepared, c: &CompiledOk, orig: &Table, e: &Engine, db: &Db, r:
     // SELECT * over a USING / NATURAL join: the standard (and PostgreSQL, which the rendering
     // follows) puts the merged columns first, SQLite keeps the left table's order. Both are
     // legitimate: align the rendered columns on the original's by name when the names coincide.
-    if has_wildcard(&gq.sql) && (gq.tags.contains(&"using") || gq.tags.contains(&"natural")) && rendered.cols.len() == orig.cols.len() {
+    if p.star && (gq.tags.contains(&"using") || gq.tags.contains(&"natural")) && rendered.cols.len() == orig.cols.len() {
         let perm: Option<Vec<usize>> = orig.cols.iter().map(|n| rendered.cols.iter().position(|m| m == n)).collect();
         if let Some(perm) = perm {
             let mut uniq = perm.clone();
@@ -381,7 +441,7 @@ fn check_c08(p: &Prepared, c: &CompiledOk, orig: &Table, e: &Engine, db: &Db, r:
         return;
     }
     // names
-    let star = has_wildcard(&gq.sql);
+    let star = p.star;
     for (i, n) in p.names.iter().enumerate() {
         if let Some(n) = n {
             if i < rendered.cols.len() && &rendered.cols[i] != n && !star {
